@@ -870,6 +870,36 @@ theorem c06_classification_table_agrees :
   have := List.all_eq_true.mp hok row hrow
   exact of_decide_eq_true this
 
+/-- … judged by `c06_action_type_classification` (not by inspection of the rows): wherever the real code recorded
+    a PERMIT vote in the table the agent's action type was exactly "PERMIT" or "EXECUTE", a BLOCK vote exactly "BLOCK" -
+    none of the fragments, superstrings, case or blank variants, nor the empty string. -/
+theorem c06_evaluated_votes_come_from_the_exact_words :
+    ∀ row ∈ classTable,
+      (row.2.1 = 0 → row.1.1 = permitCps ∨ row.1.1 = executeCps) ∧ (row.2.1 = 1 → row.1.1 = blockCps) := by
+  intro row hrow
+  have hag := c06_classification_table_agrees.2 row hrow
+  have hkind : voteTypeCode (toVote (rowVoter row.1)).kind = row.2.1 := congrArg Prod.fst hag
+  unfold rowVoter at hkind
+  by_cases hr : row.1.2.1 = raisesCode
+  · simp only [hr, if_true] at hkind
+    have : voteTypeCode (toVote ⟨.raises, .absent, q16 row.1.2.2.2.1, q16 row.1.2.2.2.2⟩).kind = 2 := rfl
+    constructor <;> intro h <;> omega
+  · simp only [hr, if_false] at hkind
+    obtain ⟨c1, c2, -, -⟩ := c06_action_type_classification row.1.1
+      (confOfPayload (payloadOfCode (if row.1.2.1 = 14 then 6 else row.1.2.1) (payloadValue row.1.2.1 row.1.2.2.1)))
+      (q16 row.1.2.2.2.1) (q16 row.1.2.2.2.2)
+    constructor
+    · intro h
+      apply c1
+      rw [h] at hkind
+      revert hkind
+      cases (toVote _).kind <;> simp [voteTypeCode]
+    · intro h
+      apply c2
+      rw [h] at hkind
+      revert hkind
+      cases (toVote _).kind <;> simp [voteTypeCode]
+
 /-- Count tables: for every evaluated configuration (MAJORITY / SUPERMAJORITY / UNANIMOUS / THRESHOLD x custom
     thresholds incl. none, 0, shares, counts, fractional counts x min_voters, and `EmergencyQuorum` with its default
     and with custom thresholds) and EVERY electorate of at most 7 voters - any weights, reliabilities, confidences,
